@@ -71,25 +71,46 @@ package reference_criterion
 //@   nopanic
 //@   ensures [new_object_each_time] typeis(result, *RandomWeightedReferenceCriterionProvider) && fresh(result.(*RandomWeightedReferenceCriterionProvider))
 //@ func (*ReferenceCriteriaManager).factory
-//@   property C18 C19 C20
+//@   property C18 C19 C20 C01 C07 C09
 //@   panics_iff [unknown_rule] !(exists k int :: 0 <= k && k < len(m.factories) && factoryName(m.factories[k]) == param.ReferenceCriterionType)
 //@   ensures [first_with_that_name] exists k int :: 0 <= k && k < len(m.factories) && result == m.factories[k] && factoryName(result) == param.ReferenceCriterionType
 //@             && forall j int :: 0 <= j && j < k ==> factoryName(m.factories[j]) != param.ReferenceCriterionType
 //@   loop 1 invariant [none_so_far] forall j int :: 0 <= j && j < iter ==> factoryName(m.factories[j]) != param.ReferenceCriterionType
 //@ func (*ReferenceCriteriaManager).extractFactoriesNames
-//@   property C20
+//@   property C20 C01 C07 C09 C18 C19
 //@   ensures [names] fresh(result) && len(result) == len(m.factories) && forall k int :: 0 <= k && k < len(m.factories) ==> result[k] == factoryName(m.factories[k])
 //@   loop 1 invariant [so_far] fresh(names) && len(names) == len(m.factories) && forall k int :: 0 <= k && k < iter ==> names[k] == factoryName(m.factories[k])
 //@ func (*ReferenceCriteriaManager).fetchFactoryTypeFromParams
-//@   property C18 C19 C20
+//@   property C18 C19 C20 C01 C07 C09
 //@   ensures [named_rule_default_first] result.ReferenceCriterionType == ((decoded_has(*params, "ReferenceCriterionType") && len(decoded_str(*params, "ReferenceCriterionType")) > 0)
 //@             ? decoded_str(*params, "ReferenceCriterionType") : factoryName(m.factories[0]))
 
 // ForParams decodes into the provider returned by NewProvider() (an interface value whose dynamic type is not known
 // statically): assumed to write only that object.
 //@ func (*ReferenceCriteriaManager).ForParams
-//@   property C18 C19 C20
+//@   property C18 C19 C20 C01 C07 C09
 //@   returnhint [rule_named_in_the_parameters_default_first] exists k int :: 0 <= k && k < len(m.factories) && factory == m.factories[k]
 //@             && factoryName(factory) == ((decoded_has(*params, "ReferenceCriterionType") && len(decoded_str(*params, "ReferenceCriterionType")) > 0)
 //@                  ? decoded_str(*params, "ReferenceCriterionType") : factoryName(m.factories[0]))
 //@   ensures [some_provider] len(m.factories) > 0
+
+// the registered object holds exactly the collaborators it was built with, each in its own role
+//@ func NewReferenceCriteriaManager
+//@   property C18 C19 C09
+//@   nopanic
+//@   ensures [wired_as_given] result != nil && fresh(result) && result.factories == factories
+
+// ---- wire format: the JSON names under which requests are read and responses are written (struct tags; encoding/json
+// itself is outside the verified code).  A renamed or omitempty field changes what a client sees without changing any Go value.
+//@ wire ImportanceRatioReferenceCriterionProvider
+//@   property C01 C18 C20
+//@   json NewCriterionImportance=newCriterionImportance
+//@ wire RandomUniformReferenceCriterionProvider
+//@   property C01 C18 C20
+//@   json NewCriterionRandomSeed=newCriterionRandomSeed
+//@ wire RandomWeightedReferenceCriterionProvider
+//@   property C01 C18 C20
+//@   json NewCriterionRandomSeed=newCriterionRandomSeed
+//@ wire referenceParamsType
+//@   property C01 C18 C20
+//@   json ReferenceCriterionType=referenceCriterionType
